@@ -34,6 +34,32 @@ pub fn gen_family(family: &str, seed: u64, count: usize, malformed: bool) -> Vec
     spaces.extend(compound_spaces(&mut r, 12));
     match family {
         "metric" => {
+            // deterministic grid first (not in the malformed stream): every unordered pair of the special angles /
+            // quaternions (seam, antipodes, equal and nearly equal rotations), with a third state for the triangle
+            if !malformed {
+                let so2 = Sp::So2 { bounds: None, frac: None };
+                let so3 = Sp::So3 { bounds: None, frac: None };
+                let angs = angles(&mut r, false);
+                let qs = quats(&mut r, false);
+                let mut grid: Vec<(Sp, St, St, St)> = vec![];
+                for i in 0..angs.len() {
+                    for j in i..angs.len() {
+                        grid.push((so2.clone(), St::So2(angs[i]), St::So2(angs[j]), St::So2(angs[(i + 2 * j + 1) % angs.len()])));
+                    }
+                }
+                for i in 0..qs.len() {
+                    for j in i..qs.len() {
+                        grid.push((so3.clone(), St::So3(qs[i]), St::So3(qs[j]), St::So3(qs[(i + 2 * j + 1) % qs.len()])));
+                    }
+                }
+                for (sp, a, b, c) in grid {
+                    let Ok(real) = build(&sp) else { continue };
+                    let mut f = vec![];
+                    oracle_metric(&sp, &real, &a, &b, &c, &mut f);
+                    push(&mut cases, case_dist(next_id(family), &sp, &a, &b), f);
+                }
+            }
+            let count = count + cases.len();
             while cases.len() < count {
                 let sp = r.pick(&spaces).clone();
                 let Ok(real) = build(&sp) else { continue };
@@ -132,6 +158,8 @@ pub fn gen_family(family: &str, seed: u64, count: usize, malformed: bool) -> Vec
             for lo in vals {
                 for hi in vals {
                     cases.push(case_ctor(next_id(family), &Sp::So2 { bounds: Some((lo, hi)), frac: None }));
+                    cases.push(case_ctor(next_id(family), &Sp::Rv { dim: 1, bounds: Some(vec![(lo, hi)]), frac: None }));
+                    cases.push(case_ctor(next_id(family), &Sp::Rv { dim: 2, bounds: Some(vec![(0.0, 1.0), (lo, hi)]), frac: None }));
                     for dim in 0..3usize {
                         for len in 0..3usize {
                             if (lo.to_bits() ^ hi.to_bits()) % 5 == (dim + len) as u64 % 5 {
@@ -322,6 +350,46 @@ pub fn gof(seed: u64, n: usize) -> (Vec<Finding>, J) {
     stats.push(("so3.narrow_cone_angle".into(), d));
     if d > critn {
         out.push(finding("C14", "not_uniform:so3_narrow_cone", format!("so3.narrow_cone_angle: KS distance {d} > {critn} (n = {n2})")));
+    }
+    // a cone around a half-turn (centre quaternion with w = 0): relative to the centre, the rotation angle follows the
+    // same conditional law and the rotation axis is uniform on the sphere
+    let m3 = 1.0;
+    let c3 = oxmpl::base::state::SO3State::new(0.0, 0.0, 1.0, 0.0);
+    let cone3 = oxmpl::base::space::SO3StateSpace::new(Some((c3.clone(), m3))).unwrap();
+    let n3 = (n / 8).max(2500);
+    let mut th3 = vec![];
+    let mut az3 = vec![];
+    let mut ax3 = vec![];
+    for _ in 0..n3 {
+        let q = cone3.sample_uniform(&mut rng).unwrap();
+        // rel = conj(c3) * q
+        let (cx, cy, cz, cw) = (-c3.x, -c3.y, -c3.z, c3.w);
+        let mut x = cw * q.x + cx * q.w + cy * q.z - cz * q.y;
+        let mut y = cw * q.y - cx * q.z + cy * q.w + cz * q.x;
+        let mut z = cw * q.z + cx * q.y - cy * q.x + cz * q.w;
+        let mut w = cw * q.w - cx * q.x - cy * q.y - cz * q.z;
+        if w < 0.0 {
+            x = -x; y = -y; z = -z; w = -w;
+        }
+        let w = w.min(1.0);
+        th3.push(2.0 * w.acos());
+        let s = (1.0 - w * w).sqrt();
+        if s > 1e-9 {
+            az3.push(z / s);
+            ax3.push(x / s);
+        }
+        let _ = y;
+    }
+    let crit3 = ((2.0e9f64).ln() / (2.0 * n3 as f64)).sqrt();
+    for (name, d) in [
+        ("so3.half_turn_cone_angle", ks(th3, |t| ((t - t.sin()) / (m3 - m3.sin())).clamp(0.0, 1.0))),
+        ("so3.half_turn_cone_axis_z", ks(az3, |z| ((z + 1.0) / 2.0).clamp(0.0, 1.0))),
+        ("so3.half_turn_cone_axis_x", ks(ax3, |z| ((z + 1.0) / 2.0).clamp(0.0, 1.0))),
+    ] {
+        stats.push((name.to_string(), d));
+        if d > crit3 {
+            out.push(finding("C14", "not_uniform:so3_half_turn_cone", format!("{name}: KS distance {d} > {crit3} (n = {n3})")));
+        }
     }
     // SE(2): components independent: x uniform, yaw uniform
     let se2 = oxmpl::base::space::SE2StateSpace::new(1.0, Some(vec![(0.0, 1.0), (0.0, 1.0), (-PI, PI)])).unwrap();
